@@ -935,8 +935,9 @@ post(const Op &op_in, uint64_t observed, uint64_t written, bool wrote)
   if (has_addr) {
     auto bi = BlockOf(op.addr);
     if (bi.st == B_FREED) {
-      RecordViolation("C12,C17", "UAF", "atomic/plain access to freed block " + AddrName(op.addr) +
-                                            " by T" + std::to_string(t.id) + " in " + t.call,
+      const char *props = G.scn->uaf_props ? G.scn->uaf_props(op.addr, bi) : "C12,C17";
+      RecordViolation(props, "UAF", "atomic/plain access to freed block " + AddrName(op.addr) +
+                                        " by T" + std::to_string(t.id) + " in " + t.call,
                       false);
     }
   }
